@@ -256,6 +256,9 @@ def eval_lcmv(rp, rng=None):
 
 
 # ----------------------------------------------------------------------------- Souden MVDR / WMWF
+_QT = [0]
+
+
 def make_sw(rng, tier, idx, which):
     big = tier == 'thorough'
     D = int(rng.integers(2, 9))
@@ -273,12 +276,20 @@ def make_sw(rng, tier, idx, which):
         Px, a, sigma = rank1_psd(rng, lead + (F,), D, scale)
     else:
         Px, a, sigma = rand_hpd(rng, lead + (F,), D, scale=scale), None, None
+    _QT[0] += 1
+    quiet = _QT[0] % 5 == 0
+    if quiet:
+        # a very quiet target next to ordinary noise: tr(Phi_nn^-1 Phi_xx) ~ 1e-20 .. 1e-24, far above the documented floor
+        # (the smallest normal number) but below machine epsilon
+        qs = float(10.0 ** rng.integers(-24, -19))
+        Px = Px * qs
+        sigma = None if sigma is None else sigma * qs
     ref = None if auto else int(rng.integers(0, D))
     rp = {'fn': which, 'Px': Px, 'Pn': Pn, 'a': a, 'sigma': sigma, 'ref': ref, 'kind': kind,
           'c': float(10.0 ** rng.uniform(-2, 2)), 'd': float(10.0 ** rng.uniform(-2, 2))}
     if which == 'souden':
         r = rng.random()
-        rp['eps'] = None if r < 0.6 else (1e-10 if r < 0.8 else float(10.0 ** rng.uniform(-2, 3)))
+        rp['eps'] = None if (r < 0.6 or quiet) else (1e-10 if r < 0.8 else float(10.0 ** rng.uniform(-2, 3)))
         rp['ret_ref'] = bool(rng.random() < 0.3)
     else:
         rp['mu'] = float(rng.choice([0.0, 1.0, 100.0])) if rng.random() < 0.4 else float(rng.uniform(0, 100) * rng.choice([1, 0.01]))
